@@ -58,6 +58,19 @@ def generic_clauses(pod_table, res):
     return out
 
 
+def weight(o):
+    """termination measure of one item of a partial production (B.4/C01): pattern matches weigh 2,
+    values that a latent rule can still rewrite weigh 1, everything else 0"""
+    from spec.views import only
+    from pyvc.logic import If
+    k = kind(o)
+    if k == "RegexMatch":
+        return 2
+    if k == "Time":
+        return If(Or(only(o, "day"), only(o, "DOW"), only(o, "month", "day"), only(o, "POD")), 1, 0)
+    return 0
+
+
 def rule_clauses(name, pod_table, ghost, ts, args, res, spec_name=None):
     """all clauses of the contract of rule `name` for one (arguments, result) pair"""
     from contracts.rule_specs import SPECS
@@ -65,6 +78,10 @@ def rule_clauses(name, pod_table, ghost, ts, args, res, spec_name=None):
         return list(SPECS[spec_name](Env(pod_table, ghost), ts, *(list(args) + [res])))
     out = generic_clauses(pod_table, res)
     out.append(("result-fresh-or-argument", ["C12", "C15"], fresh_or_argument(args, res)))
+    if len(args) == 1 and res is not None:
+        # a rule with a single argument does not shorten the production: its value must weigh less,
+        # otherwise the production loop could go on for ever (rules with >= 2 arguments shorten it)
+        out.append(("termination-measure-decreases", ["C01"], weight(res) < weight(args[0])))
     if name == "ruleEarlyLatePOD":
         out = [(n, p + ["C19"] if n == "wf-result" else p, g) for n, p, g in out]
     sp = SPECS.get(name)
